@@ -76,6 +76,17 @@ def retained_case(rng):
     return {"steps": steps, "env": gen.ENV}
 
 
+def numkey_case(rng):
+    """maps whose keys look like numbers ("7" and "07", "2" < "10" < "1a" as text or as integers?) turned into LISTS by
+    $encode: values / tolist / flags: the order of the result must be one order, every time"""
+    pools = [["7", "07", "007"], ["0", "-0", "+0", "00"], ["2", "10", "1a", "1", "9"], ["10", "9", "8a", "08", "8"], ["1", "01", "a", "1a", "a1"]]
+    keys = rng.sample(rng.choice(pools) + rng.choice(pools), rng.randint(3, 6))
+    m = {k: rng.choice([i, "v%d" % i, True]) for i, k in enumerate(keys)}
+    enc = rng.choice(["values", "tolist:=", "flags", ["tolist:=", "join:,"], ["values", "join:-"], "tolist::"])
+    doc = {"x": dict(m, **{"$encode": enc}), "keep": m}
+    return {"steps": [{"merge": {"id": "D0", "parents": [], "data": doc}}, {"outdocs": True}, {"out": "json"}], "env": {}}
+
+
 def casefold_case(rng):
     """keys that differ only by letter case, and references spelled in yet another case: which key a reference finds
     (none: an error) must not depend on map iteration order"""
@@ -136,9 +147,11 @@ def gen_case(rng):
     r0 = rng.random()
     if r0 < 0.04:
         return casefold_case(rng)
-    if r0 < 0.05:
-        return retained_case(rng)
+    if r0 < 0.08:
+        return numkey_case(rng)
     if r0 < 0.1:
+        return retained_case(rng)
+    if r0 < 0.13:
         return pending_merge_case(rng)
     if r0 < 0.15:
         c = collide_case(rng)
